@@ -19,7 +19,9 @@ ID = "C15"
 LEVEL = "exploration"
 REQUIRED_CLASSES = ["ok"]
 RULE = ("all 48 orientation codes x RAS sizes x chunk sizes x pixel kinds "
-        "{grey uint8, grey uint16, RGB uint8, two directories = 2 channels} "
+        "{grey uint8, grey uint16, RGB uint8, two directories = 2 channels, "
+        "RGB + grey directory = 4 channels} x file names {zero-padded, 12 "
+        "slices with un-padded numbers} "
         "x storage {flat no-gzip, deep gzip, sharded(1,1,0) for cubic "
         "chunks}, plus label stacks stored as compressed_segmentation for "
         "all 48 codes, also with 2 and 3 channels sharing their label sets (quick: 2 sizes x 2 chunk sizes x 2 pixel kinds x 1-2 "
@@ -84,18 +86,26 @@ def expected_volume(code, size, nch, kind):
     return out, n
 
 
-def write_slices(d, code, size, kind):
+def write_slices(d, code, size, kind, names="padded"):
     import PIL.Image
     a = [AXIS[ch] for ch in code]
     n = [size[a[0]], size[a[1]], size[a[2]]]
-    ndirs = 2 if kind.startswith("two-dirs") else 1
+    ndirs = 2 if (kind.startswith("two-dirs") or kind == "rgb-grey") else 1
+    # slices are taken in lexicographic order of their file names (the
+    # script's documented rule): with un-padded numbers that is not the
+    # numeric order
+    if names == "unpadded":
+        fnames = sorted("s%d.png" % i for i in range(n[2]))
+    else:
+        fnames = ["s%04d.png" % i for i in range(n[2])]
     dirs = []
     for di in range(ndirs):
         sd = os.path.join(d, "slices%d" % di)
         os.makedirs(sd)
         dirs.append(sd)
         for k in range(n[2]):
-            if kind.startswith("rgb"):
+            if kind.startswith("rgb") and not (kind == "rgb-grey"
+                                               and di == 1):
                 img = np.zeros((n[1], n[0], 3), dtype=np.uint8)
                 for ch in range(3):
                     for r in range(n[1]):
@@ -107,9 +117,10 @@ def write_slices(d, code, size, kind):
                 img = np.zeros((n[1], n[0]), dtype=dt)
                 for r in range(n[1]):
                     for c in range(n[0]):
-                        img[r, c] = stack_value(c, r, k, di, kind)
+                        img[r, c] = stack_value(
+                            c, r, k, 3 if kind == "rgb-grey" else di, kind)
                 im = PIL.Image.fromarray(img)
-            p = os.path.join(sd, "s%04d.png" % k)
+            p = os.path.join(sd, fnames[k])
             im.save(p)
             back = np.asarray(PIL.Image.open(p))
             assert np.array_equal(back, img), "PNG writer self-check"
@@ -132,8 +143,8 @@ def _eval_in(col, case, d):
     code, size, cs, kind = (case["code"], case["size"], case["chunk"],
                             case["pixels"])
     nch = {"uint8": 1, "uint16": 1, "rgb": 3, "two-dirs": 2,
-           "rgb-labels": 3, "two-dirs-labels": 2}[kind]
-    dirs, n = write_slices(d, code, size, kind)
+           "rgb-labels": 3, "two-dirs-labels": 2, "rgb-grey": 4}[kind]
+    dirs, n = write_slices(d, code, size, kind, case.get("names", "padded"))
     dest = os.path.join(d, "ds")
     os.makedirs(dest)
     scale = {"key": "full", "size": list(size), "chunk_sizes": [list(cs)],
@@ -254,6 +265,21 @@ def cases(tier):
             out.append({"code": code, "size": [4, 6, 5], "chunk": [4, 4, 4],
                         "pixels": kind, "storage": "flat-nogzip",
                         "encoding": "compressed_segmentation"})
+    # more than 9 slices with un-padded numbers in their names, and an RGB
+    # directory followed by a grey-level one (4 channels)
+    for code in codes:
+        i = codes.index(code)
+        if tier == "quick" and i % 6 not in (1, 4):
+            continue
+        if tier == "thorough" or i % 6 == 1:
+            sz = [3, 2, 2]
+            sz[AXIS[code[2]]] = 12
+            out.append({"code": code, "size": sz, "chunk": [4, 4, 4],
+                        "pixels": "uint8", "storage": "flat-nogzip",
+                        "names": "unpadded"})
+        if tier == "thorough" or i % 6 == 4:
+            out.append({"code": code, "size": [4, 3, 5], "chunk": [2, 2, 2],
+                        "pixels": "rgb-grey", "storage": "flat-nogzip"})
     # quick also covers the other two pixel kinds on a few codes
     if tier == "quick":
         for code in ("RAS", "LPI", "SRA", "IPL", "ASR", "PIR"):
